@@ -173,6 +173,37 @@ template <unsigned k, class E> void c_gk_interval(E& e) {
   e.ensure("x^" + std::to_string(k) + " on [1/2,3] within 1e-12", e.lt(std::get<0>(ab) - exact, tol) && e.lt(exact - std::get<0>(ab), tol));
   e.ensure("swapping the bounds changes the sign of the integral, not the error estimate", e.eq(std::get<0>(ab), -std::get<0>(ba)) && e.eq(std::get<1>(ab), std::get<1>(ba)));
 }
+// same statement on a time range that does not start at zero, with concrete times (ti = 1, tf = 2) and proposed increments on both sides of
+// tf - ti and of 2 (tf - ti): every time comparison folds to a constant, so the exploration is a single path whatever the loop does
+template <template <class> class Ode, bool two_components, int num, int den, class E> void c_adaptive_offset_range(E& e) {
+  using T = typename E::real;
+  Ode<T> s;
+  s.p = sym_poly(e, 0);
+  const T ti = T(1), tf = T(2), y0 = e.var("y0"), eps = e.var("eps"), dt0 = T(num) / T(den);
+  e.require(e.lt(T(0), eps));
+  if constexpr (two_components) {
+    tvector<2u, T> y;
+    y(0) = y0;
+    y(1) = T(2) * y0;
+    s.setInitialValue(y);
+  } else {
+    s.setInitialValue(y0);
+  }
+  s.setInitialTime(ti);
+  s.setFinalTime(tf);
+  s.setInitialTimeIncrement(dt0);
+  s.setCriterionValue(eps);
+  s.iterate();
+  if constexpr (two_components) {
+    e.ensure("ti = 1, tf = 2: y(tf) - y(ti) = c0 (tf - ti)", e.eq(s.getValue()(0) - y0, s.p.c[0] * (tf - ti)));
+  } else {
+    e.ensure("ti = 1, tf = 2: y(tf) - y(ti) = c0 (tf - ti)", e.eq(s.getValue() - y0, s.p.c[0] * (tf - ti)));
+  }
+}
+#define OFFS(NUM, DEN) \
+  template <class E> void c_rk42_off_##NUM##_##DEN(E& e) { c_adaptive_offset_range<RK42Ode, false, NUM, DEN>(e); } VSYM_CONTRACT_P("RungeKutta42/iterate(ti=1,tf=2,dt0=" #NUM "/" #DEN ")", c_rk42_off_##NUM##_##DEN, 80) \
+  template <class E> void c_rk54_off_##NUM##_##DEN(E& e) { c_adaptive_offset_range<RK54Ode, true, NUM, DEN>(e); } VSYM_CONTRACT_P("RungeKutta54/iterate(ti=1,tf=2,dt0=" #NUM "/" #DEN ")", c_rk54_off_##NUM##_##DEN, 80)
+OFFS(3, 2) OFFS(3, 1) OFFS(2, 5)
 VSYM_CONTRACT("RungeKutta2/increm(degree<=1)", c_rk2)
 VSYM_CONTRACT("RungeKutta4/increm(degree<=3)", c_rk4)
 VSYM_CONTRACT_P("RungeKutta42/iterate(accepted-step,degree<=3)", c_rk42, 60)
